@@ -1,7 +1,9 @@
 package main
 
 import (
+	"fmt"
 	"go/types"
+	"strings"
 
 	"golang.org/x/tools/go/ssa"
 )
@@ -217,4 +219,192 @@ func sortedKeyWalk(val *Term) (M, K *Term, ok bool) {
 		return nil, nil, false
 	}
 	return M, K, true
+}
+
+// checkAolExportLoopBounds: every export loop that fills a genesis map walks exactly the list it indexes — the loop's bound is
+// the length of a result of the very GetAll* call whose parallel results give the key and the value. (`for i := range topicKeys {
+// …writerKeys[i]… }` exports only the first len(topics) writers, or runs off the end.)
+func checkAolExportLoopBounds(p *Prog, r *Report, kp func(string, string) string) {
+	exp := p.Func(Rel("x/aol"), "ExportGenesis")
+	if exp == nil {
+		return
+	}
+	m := buildAolModel(p)
+	n := 0
+	for _, eu := range genesisUnits(p, exp) {
+		for _, b := range eu.fn.Blocks {
+			for _, in := range b.Instrs {
+				mu, ok := in.(*ssa.MapUpdate)
+				if !ok || !inCycle(b) {
+					continue
+				}
+				// the GetAll* call behind the key
+				var call *Term
+				eu.o.Of(mu.Key).Walk(func(x *Term) {
+					if x.Op == "call" && m.accessorByName(x.Name) != nil {
+						call = x
+					}
+				})
+				if call == nil {
+					continue
+				}
+				// the loop header and its bound
+				var header *ssa.BasicBlock
+				for d := b; d != nil && header == nil; d = d.Idom() {
+					for _, pr := range d.Preds {
+						if d.Dominates(pr) {
+							header = d
+						}
+					}
+				}
+				if header == nil || len(header.Instrs) == 0 {
+					continue
+				}
+				iff, ok := header.Instrs[len(header.Instrs)-1].(*ssa.If)
+				if !ok {
+					continue
+				}
+				bo, ok := iff.Cond.(*ssa.BinOp)
+				if !ok {
+					continue
+				}
+				lc, ok := bo.Y.(*ssa.Call)
+				if !ok {
+					continue
+				}
+				if bi, isB := lc.Call.Value.(*ssa.Builtin); !isB || bi.Name() != "len" || len(lc.Call.Args) != 1 {
+					continue
+				}
+				n++
+				bound := eu.o.Of(lc.Call.Args[0])
+				same := bound.Contains(func(x *Term) bool { return x.Eq(call) })
+				fld, _ := rawFieldLoad(mu.Map)
+				if eu.resultField != "" {
+					fld = eu.resultField
+				}
+				r.Check(same, kp("LOOP", "x/aol.ExportGenesis#"+fld+"-loop-walks-the-list-it-indexes"), "an export loop's bound is the length of the list whose entries it exports", p.Pos(mu.Pos()),
+					"bound ≡ len(result of "+call.Name+")", fmt.Sprintf("the loop that exports %s runs up to len(%s) but indexes the results of %s: entries beyond that length are not exported (or the loop runs off the end)", fld, clip(bound.String(), 80), call.Name))
+			}
+		}
+	}
+	r.Count("aol-export-loops-with-a-length-bound", n)
+}
+
+// checkParallelResultsUntouched: fn returns two (or more) slices that its loop fills by paired appends; outside the loop no
+// call receives one of the returned slice values (directly, boxed, re-sliced or captured by a closure) and no store goes through
+// them: what is returned is what the loop built, in the loop's order.
+func checkParallelResultsUntouched(p *Prog, r *Report, key string, fn *ssa.Function) {
+	rule := "the parallel result lists of a list accessor are returned as the loop built them: nothing reorders, filters or rewrites one of them afterwards"
+	results := map[ssa.Value]bool{}
+	nSlices := 0
+	for _, ret := range returnsOf(fn) {
+		for _, rv := range ret.Results {
+			if _, isSl := rv.Type().Underlying().(*types.Slice); isSl {
+				results[rv] = true
+				results[unspill(rv)] = true // a result spilled into a result variable (deferred calls): what was stored there
+				nSlices++
+			}
+		}
+	}
+	if nSlices < 2 {
+		r.OKTrivial(key, rule, p.FnPos(fn), "fewer than two slice results")
+		return
+	}
+	// a result that lives in a local variable (captured by a closure, hence spilled): every load of that variable is the result
+	cells := map[ssa.Value]bool{}
+	for rv := range results {
+		if u, ok := rv.(*ssa.UnOp); ok {
+			if al, isAl := u.X.(*ssa.Alloc); isAl {
+				cells[al] = true
+			}
+		}
+	}
+	derived := func(v ssa.Value) bool {
+		for i := 0; i < 4; i++ {
+			if results[v] || cells[v] {
+				return true
+			}
+			if u, ok := v.(*ssa.UnOp); ok && cells[u.X] {
+				return true
+			}
+			switch x := v.(type) {
+			case *ssa.MakeInterface:
+				v = x.X
+			case *ssa.ChangeType:
+				v = x.X
+			case *ssa.Slice:
+				v = x.X
+			case *ssa.Convert:
+				v = x.X
+			default:
+				return false
+			}
+		}
+		return false
+	}
+	bad := ""
+	for _, b := range fn.Blocks {
+		if inCycle(b) {
+			continue
+		}
+		for _, in := range b.Instrs {
+			switch x := in.(type) {
+			case ssa.CallInstruction:
+				cc := x.Common()
+				if bi, isB := cc.Value.(*ssa.Builtin); isB && (bi.Name() == "len" || bi.Name() == "cap") {
+					continue
+				}
+				for _, a := range cc.Args {
+					if derived(a) {
+						bad = fmt.Sprintf("%s receives a result list at %s", calleeName(cc), p.Pos(x.Pos()))
+					}
+				}
+			case *ssa.MakeClosure:
+				for _, bnd := range x.Bindings {
+					if derived(bnd) {
+						bad = "a closure captures a result list at " + p.Pos(x.Pos())
+					}
+				}
+			case *ssa.IndexAddr:
+				if derived(x.X) {
+					if refs := x.Referrers(); refs != nil {
+						for _, rf := range *refs {
+							if st, ok := rf.(*ssa.Store); ok && st.Addr == ssa.Value(x) {
+								bad = "an element of a result list is overwritten at " + p.Pos(st.Pos())
+							}
+						}
+					}
+				}
+			}
+		}
+	}
+	r.Check(bad == "", key, rule, p.FnPos(fn), fmt.Sprintf("%d slice results, untouched after the loop", nSlices),
+		bad+": keys[i] and values[i] no longer belong to the same store entry, and everything built on the pairing (the genesis export, the listings) pairs entries with each other's data")
+}
+
+// checkExportLoadsRequestedHeight: the `export --height H` command exports the state committed at H: the height handed to
+// LoadHeight is the command's own height argument, unchanged. (H-1 exports the state before block H: a DID deactivated, a token
+// transferred or a record appended in block H is exported as it was before.)
+func checkExportLoadsRequestedHeight(p *Prog, r *Report, kp func(string, string) string) {
+	n := 0
+	for _, fn := range p.ModFuncs {
+		if !InPkgs(fn, "cmd") || fn.Blocks == nil {
+			continue
+		}
+		var o *Origin
+		for _, cs := range callSites(fn) {
+			if !strings.HasSuffix(cs.Name, "baseapp.BaseApp).LoadVersion") && !strings.HasSuffix(cs.Name, "app.App).LoadHeight") {
+				continue
+			}
+			if o == nil {
+				o = NewOrigin(p, fn)
+			}
+			args := cs.Instr.Common().Args
+			t := o.Of(args[len(args)-1])
+			n++
+			r.Check(t.Op == "param", kp("ORIGIN", FuncName(fn)+"#exports-the-requested-height"), "an export at a given height loads exactly that height", p.Pos(cs.Instr.Pos()),
+				"LoadHeight(height)", fmt.Sprintf("%s loads %s instead of the height it was asked for: what happened in the last block before the requested height (a deactivation, a transfer, an append) is missing from the exported genesis", FuncName(fn), clip(t.String(), 80)))
+		}
+	}
+	r.Count("export-height-loads", n)
 }
